@@ -18,6 +18,11 @@ def run(ctx):
     M.m4_generation_wiring(ctx)
     M.m5_union_sub_objects(ctx)
     M.m4b_verification_levels(ctx)
+    M.m6_product_enumeration(ctx)
+    ctx.floor("M6", 2)
+    from ..engines import sizecheck as SC
+    SC.s0_compositions(ctx)
+    ctx.floor("S0", 4)
     # the parameter maps that key the generated objects
     from ..engines import varkind as V
     V.v1_children_map_builders(ctx)
